@@ -229,8 +229,13 @@ def gen_cases(rng, n, depth, entries, stable_share=0.75):
                                 ['tuplefixed', [rng.choice(allkeys), ['cls', 'str']]]])
             if not type_args_ok(h, full):
                 continue        # type[K] with K rewritten to something that is not a class: outside the model
+            if '"counter"' in json.dumps(h) and any(k == ['cls', 'int'] for k, _ in full):
+                continue        # Counter[K] is reduced to a mapping whose values are int: F56 (probed separately in run())
             hand = subst_ir(full, h)
             conf = {'tower': tower, 'ov': ov}
+            if tower and rng.random() < 0.3:
+                # the user restates one or both of the tower's own entries: the configuration means the same
+                conf['ov_restated'] = rng.choice([[TOWER[0]], [TOWER[1]], TOWER])
             vals = []
             try:
                 good = IR.gen_sat(rng, hand)
@@ -413,8 +418,29 @@ def run(ctx):
         if proof_err is None:
             ctx.broken('corr/c18 model evaluation', e.log)
             return
+    # the int that the reduction of Counter[K] introduces for the values is rewritten by an override of int although the hint never mentions int
+    probe = counter_probe()
+    ctx.extra['counter_value_override_probe'] = probe
+    ctx.evaluations += 1
+    if probe.get('configured') != probe.get('by_hand'):
+        if ctx.report({'clause': 'conf_vs_hand', 'implicit': 'counter_value_int'}, {'observed': probe},
+                      'an override of int also rewrites the value hint beartype introduces when it reduces Counter[K]') == 'violation':
+            failures += 1
     if proof_err is not None and not failures:
         ctx.broken(f'{PROP} ({proof_err.what})', proof_err.log)
+
+
+def counter_probe():
+    import subprocess
+    from harness.common import PY, impl_env
+    code = ('import json\nfrom collections import Counter\nfrom beartype import BeartypeConf, FrozenDict\nfrom beartype.door import is_bearable\n'
+            'c = Counter({"a": 1})\nconf = BeartypeConf(hint_overrides=FrozenDict({int: str}))\n'
+            'print(json.dumps({"configured": bool(is_bearable(c, Counter[str], conf=conf)), "by_hand": bool(is_bearable(c, Counter[str]))}))\n')
+    p = subprocess.run([PY, '-c', code], capture_output=True, text=True, env=impl_env(), timeout=120)
+    try:
+        return json.loads(p.stdout.strip().splitlines()[-1])
+    except Exception:  # noqa
+        return {'probe_failed': p.stderr[-300:] or 'no output'}
 
 
 def replay(ctx, path):
